@@ -20,9 +20,9 @@ EXPLANATION = (
     "D1t: type arguments of deferred constructors are classes). G3: optional parser results are None-tested. G10: "
     "dispatches ending in assert/raise cover the classes their producers build. G11: possibly-deferred values are only "
     "used with operations deferreds support. P1 division, P2 encode, P5 int(text, base), P6 struct slot ranges, P10 open, "
-    "P11 chr, P12 unbounded multipliers. NOT decided: termination (cyclic definitions such as 'a = a' make wait() spin), "
+    "P11 chr, P12 unbounded multipliers. G12: no int-valued thunk forces its operand (recursion per link of a definition chain). G13: every while loop matches a termination template whose side conditions are read from the loop. G14: recursion through '.include' carries a depth guard. R.deliver: diagnostics reach the handler at once. NOT decided: termination of the lazy evaluation as a whole (cyclic definitions such as 'a = a' make wait() spin), running time, "
     "recursion depth, memory, implicit exceptions outside the enumerated kinds.")
-ASSUMPTIONS = ["termination is not decided", "implicit exceptions outside the enumerated partial operations are not decided", "the call graph is name based (over-approximate)"]
+ASSUMPTIONS = ["termination is decided only loop by loop (G13) and for the two recursions G12/G14; a = a is not decided", "implicit exceptions outside the enumerated partial operations are not decided", "the call graph is name based (over-approximate)"]
 TRUSTED = ["the reasoned discharge table in sa/rules/escape.py", "python ast", "sa.engine.flow"]
 LEVEL_TEXT = "An exception class that cannot escape cannot escape for any source text; the enumerated partial operations are checked at every call site."
 LEVEL_NOTE = "half of the property only: termination and un-enumerated implicit exceptions are outside static reach and are not claimed"
